@@ -38,7 +38,7 @@ CHECKS = {
          "parameter's routine converted each argument; inspect.Signature.bind is the oracle for acceptance and routing; an end-to-end "
          "variant keeps the real unmarshallers.", "4/C10", "CrossHair symbolic execution of bind()/wrap() over call shapes vs inspect.Signature.bind, z3 path exhaustion, native replay"),
  "C16": ("E3 inductive step: the pre-state is an arbitrary reachable TypeContext content over a closed key family (presence and alias-memo "
-         "bits are choice variables the solver enumerates exhaustively), one operation, a second lookup, against a reference model whose "
+         "bits are choice variables the solver enumerates exhaustively; families: top-level class, nested class with a short-name decoy, bare user Generic, classes of an unregistered module; one- and two-layer wrapper keys), one operation, a second lookup, against a reference model whose "
          "unwraps-to / named-by relations are hand-written tables; the representation invariant is assumed before and asserted after, so "
          "histories of any length are covered.", "4/C16", "CrossHair/z3 exhaustive exploration of choice variables (bounded model checking of one inductive step), native replay"),
  "C04": ("E2 kernel-to-z3 for the duration writer: serdes.isoformat's AST is re-translated on every run into guarded text templates; for "
@@ -51,38 +51,38 @@ CHECKS = {
          "exhaustively (lazy forking); future.transform runs natively on the rendered string; the oracle is the harness's own AST evaluator "
          "(| read as Union, builtin generics identified with their typing spellings, non-annotation nodes opaque), plus no-BitOr, fixpoint and "
          "unchanged-AST checks.", "4/C20", "CrossHair/z3 exhaustive enumeration of grammar derivations (choice variables), reference-evaluator oracle, native replay"),
- "C19": ("E3 choice-symbolic: the dataclass definition (fields, default kinds, frozen/eq/order/unsafe_hash, four base kinds, user "
-         "__getstate__) and decoration histories are choice variables enumerated exhaustively by the solver; classes are synthesised "
+ "C19": ("E3 choice-symbolic: the dataclass definition (fields, default kinds, frozen/eq/order/unsafe_hash, five base kinds, user "
+         "__getstate__ / __setstate__, user methods incl. zero-argument super()) and decoration histories are choice variables enumerated exhaustively by the solver; classes are synthesised "
          "natively and instances of C and slotted(C) compared for construction, ==, ordering, hash, repr, frozen-ness, copy, pickle, "
          "weakref, __slots__ and __dict__ absence.", "4/C19", "CrossHair/z3 exhaustive enumeration of class definitions and decoration histories (choice variables), native replay"),
  "C09": ("E3 choice-symbolic (weakest form): adjacency bits, edge kinds, root container and naming variants of a class graph over three "
-         "synthesised dataclasses are choice variables enumerated exhaustively by the solver; graph.itertypes/static_order run natively "
+         "synthesised dataclasses (also NamedTuple, Generic, Protocol-rooted, nested, same-named flavours; rebinding of the same names) are choice variables enumerated exhaustively by the solver; graph.itertypes/static_order run natively "
          "and the node sequence is checked against the statement's invariants (termination, no duplicates, root last, members before "
          "containers, every forward reference flagged cyclic and denoting exactly the revisited member, input-form invariance).",
          "4/C09", "CrossHair/z3 exhaustive enumeration of class-graph topologies (choice variables), invariant oracle, native replay"),
- "C15": ("E3 choice-symbolic (weakest form): derivations of the annotation grammar (24 leaves x 16 constructors, depth 1 exhaustively, "
+ "C15": ("E3 choice-symbolic (weakest form): derivations of the annotation grammar (39 leaves x 16 constructors, depth 1 exhaustively, "
          "depth 2 for unary chains) are choice variables enumerated exhaustively; marshaller/unmarshaller/codec are built natively; "
-         "failures are identified by the typelib function that raised; pass-through roots are probed with an identity sentinel and "
+         "failures are identified by the typelib function that raised; pass-through roots and the members of unparameterised containers are probed with identity sentinels (objects, bytes-like values) and "
          "rebuilt routines compared on a probe vector.", "4/C15", "CrossHair/z3 exhaustive enumeration of annotation derivations (choice variables), native replay"),
  "C12": ("E3 choice-symbolic, run natively (CrossHair removes memoisation under tracing): bounded model checking of the stateful API - "
-         "every sequence of length <= 3 over an alphabet of operation instances with equal-but-distinct operands, result / input mutation "
+         "every sequence of length <= 3 over an alphabet of 25 operation instances and every ordered pair over all 70 instances, with equal-but-distinct operands, result / input mutation "
          "and cache clearing is selected by choice variables enumerated exhaustively; each operation's outcome is compared with the same "
          "operation run cold; containers are checked for identity with earlier results / inputs; a failing history is attributed to the "
          "earlier operation whose removal makes it vanish.", "4/C12", "CrossHair/z3 exhaustive enumeration of operation sequences (bounded model checking by choice variables), native replay"),
  "C11": ("E3 differential for wrapper chain x position x reference origin (choice variables enumerated exhaustively; routines for "
-         "pos(W(T)) and pos(T) built natively and compared on 10 inputs per base through unmarshaller, marshaller and codec), plus an E1 "
+         "pos(W(T)) and pos(T) built natively and compared on 10 inputs per base through unmarshaller, marshaller and codec; reference expressions - nested classes, unions, subscripted generics, Literal - as strings from two modules and as the value of string-valued aliases; recursion closed through NewType / alias), plus an E1 "
          "differential of the two root unmarshallers on a symbolic x in J for each wrapper kind.", "4/C11",
          "CrossHair/z3 enumeration of wrapper chains (choice variables) + value-symbolic differential execution, native replay"),
  "C07": ("E1 on the recursive fixtures (symbolic values of depth <= 2: round trip, per-level conformance, plain output), E3+E1 for chains of "
          "depth d = 0..12 chosen by a choice variable with symbolic leaf ints, and E3 for synthesised cyclic topologies (every directed graph "
-         "over three dataclasses x edge kind x root container x root class, enumerated exhaustively): construction terminates, every level "
+         "over three dataclasses x 5 edge kinds incl. None | C x root container x root class, enumerated exhaustively): construction terminates, every level "
          "is converted, values and the codec round trip.", "4/C07", "CrossHair symbolic execution + exhaustive enumeration of cycle topologies and depths (choice variables), native replay"),
  "C02": ("E1 for a user-supplied pure-Python tagging encoder/decoder pair (codec(T, encoder, decoder), typelib.encode/decode and the explicit "
          "composition of marshal/unmarshal with the coder must agree on symbolic valid v) and for the identity coder of bytes on symbolic "
          "bytes; E3 for the default (orjson) and stdlib json configurations on values assembled from pick-lists by choice variables "
          "(C encoders cannot be executed symbolically): encoded bytes parse with the standard json module to exactly marshal(v), all three "
-         "entry points agree, decode(encode(v)) restores v.", "4/C02", "CrossHair symbolic execution of the codec wiring + exhaustive enumeration of pick-list values (choice variables), native replay"),
- "C14": ("E3 for the five text carriers x catalogue x look-alike texts and the JSON / repr text of pick-list wire values (all choice "
+         "entry points agree, decode(encode(v)) restores v; for optional / union shapes two values go through the same codec object before the entry points are compared.", "4/C02", "CrossHair symbolic execution of the codec wiring + exhaustive enumeration of pick-list values (choice variables), native replay"),
+ "C14": ("E3 for the six text carriers (incl. a memoryview slice of a larger buffer) x catalogue x look-alike texts and the JSON / repr text of pick-list wire values (all choice "
          "variables, enumerated exhaustively; JSON text is realised at the C decoder), load/strload against the standard JSON decoder and "
          "ast.literal_eval over every string to length 3 of a 14-character alphabet; E1 for serdes.decode on symbolic bytes and load on "
          "non-text inputs.", "4/C14", "CrossHair/z3 exhaustive enumeration of texts and carriers (choice variables) + symbolic execution of serdes.decode, native replay"),
